@@ -240,6 +240,52 @@ def holiday_probe() -> list:
     return bad[:4]
 
 
+def jobs_probe() -> list:
+    """'jobs built from the same trigger object do not influence one another' (C15): two jobs are built from ONE trigger
+    object at different instants; the second job's first run is what a copy of the trigger object answers at that instant,
+    and the first job keeps its own"""
+    import asyncio
+    from eascheduler.builder import TriggerBuilder as T
+    from eascheduler.builder.jobs import JobBuilder
+    from eascheduler.builder.triggers import _get_producer
+    from eascheduler.executor.base import SyncExecutor
+    from eascheduler.schedulers.async_scheduler import AsyncScheduler
+    from whenever import Instant, patch_current_time
+    bad = []
+    loop = asyncio.new_event_loop()
+    try:
+        sched = AsyncScheduler(event_loop=loop, enabled=False)
+        builder = JobBuilder(sched, lambda f, a, k: SyncExecutor(f, a, k))
+        makers = {
+            'interval(None, 60)': lambda: T.interval(None, 60),
+            'interval(None, 60).offset(25)': lambda: T.interval(None, 60).offset(25),
+            'group(interval(None, 3600), time 12:00)': lambda: T.group(T.interval(None, 3600), T.time('12:00:00', clock_forward='skip', clock_backward='earlier')),
+            'interval(None, 90).jitter(0, 0.001)': lambda: T.interval(None, 90).jitter(0, 0.001),
+        }
+        t1 = Instant.from_utc(2025, 5, 14, 3, 0, 0)
+        t2 = t1.add(seconds=35, milliseconds=500)
+        for name, mk in makers.items():
+            trig = mk()
+            with patch_current_time(t1, keep_ticking=False):
+                j1 = builder.at(trig, lambda: None)
+                n1 = j1._job.next_run
+            with patch_current_time(t2, keep_ticking=False):
+                want = _get_producer(trig).get_next(t2)
+                j2 = builder.at(trig, lambda: None)
+            got = j2._job.next_run
+            tol = 2_000_000 if 'jitter' in name else 0
+            if got is None or abs(got.timestamp_nanos() - want.timestamp_nanos()) > tol:
+                bad.append(f'{name}: a second job built from the same trigger object 35.5 s later announces {got}, a copy of the '
+                           f'trigger object answers {want} at that instant (the first job announced {n1})')
+            if j1._job.next_run != n1:
+                bad.append(f'{name}: building a second job changed the first job\'s next run from {n1} to {j1._job.next_run}')
+    except Exception as e:  # noqa: BLE001
+        bad.append(f'jobs probe raised {type(e).__name__}: {e}')
+    finally:
+        loop.close()
+    return bad[:4]
+
+
 def tz_switch_probe() -> list:
     """the answer depends on the system time zone in force when it is asked (C15): the same trigger definitions are asked
     under a second system zone in the same process (TZ + tzset) and judged against zoneinfo"""
@@ -294,7 +340,7 @@ def main() -> int:
     cases = json.load(open(sys.argv[1]))
     out = [run_case(c) for c in cases]
     if out and cases and cases[0].get('with_holiday_probe'):
-        out[0]['holiday_probe'] = holiday_probe() + tz_switch_probe()
+        out[0]['holiday_probe'] = holiday_probe() + jobs_probe() + tz_switch_probe()
     json.dump(out, open(sys.argv[2], 'w'))
     return 0
 
